@@ -397,7 +397,15 @@ func objectSig(jp *jsonProgram, o *JSONObject, side string, depth int) string {
 			for _, w := range o.Writer {
 				switch w.Kind {
 				case "prop":
-					rows = append(rows, fmt.Sprintf("%q%s%s:%s", w.Key, map[bool]string{true: "?", false: "!"}[w.Optional], map[bool]string{true: "~", false: ""}[w.NullCapable], jsonSig(jp, w.Field.Type(), side, depth+1)))
+					sig := jsonSig(jp, w.Field.Type(), side, depth+1)
+					// an inline array property written without the nil→[] normalisation behaves unlike
+					// the same array hoisted to a component (whose MarshalJSON always brackets)
+					if in, _, nullable := unwrapWrappers(w.Field.Type()); !nullable && !w.NilSliceFix {
+						if _, isSlice := in.(*types.Slice); isSlice {
+							sig = "nil-not-[]|" + sig
+						}
+					}
+					rows = append(rows, fmt.Sprintf("%q%s%s:%s", w.Key, map[bool]string{true: "?", false: "!"}[w.Optional], map[bool]string{true: "~", false: ""}[w.NullCapable], sig))
 				case "additional":
 					rows = append(rows, "*:"+jsonSig(jp, w.Field.Type(), side, depth+1))
 				case "embedded":
